@@ -814,7 +814,7 @@ def scan_none_discipline(cx: Cx, ob: Ob, fns: list[FunctionInfo]) -> None:
 
     from .summ import KNOWN_SIGNATURES as _KS
 
-    helpers = [g for g in cx.model.functions.values() if g.qualname not in _KS and g.parent is None]
+    helpers = [g for g in cx.model.functions.values() if g.qualname not in _KS and g.parent is None and g.module.name == API]  # api.py: where '' is a legitimate name
     for g in list(fns) + helpers:
         for prm in g.params:
             if prm.name not in ("identifier", "prefix", "uri_prefix", "reference") or prm.annotation is None:
